@@ -499,3 +499,59 @@ def run(prop, tier, seed, config='tsan'):
     v.assumptions = ['ThreadSanitizer sees only the executions that ran and only synchronisation it intercepts',
                      'sequential reference model vlib/model.py; creation of a sequenced expectation is a compound operation (register / set bounds / become callable)']
     return v.finish()
+
+
+def trial_from_text(meta, text):
+    t = Trial()
+    t.pre, t.threads, t.post = [], [], []
+    cur = t.pre
+    for ln in text.split('\n'):
+        ln = ln.strip()
+        if not ln or ln.startswith('TRIAL') or ln == 'END':
+            continue
+        if ln.startswith('T '):
+            t.threads.append([])
+            cur = t.threads[-1]
+            continue
+        if ln == 'POST':
+            cur = t.post
+            continue
+        toks = [x for x in ln.split() if not x.startswith('~')]
+        cur.append(engine.parse_ops(meta, [' '.join(toks)])[0])
+    return t
+
+
+def replay(prop, path, reps=300):
+    w = json.load(open(path))
+    exe, meta = build_thr('tsan')
+    if 'trial' not in w:
+        print('replay: this witness is a ThreadSanitizer report of a generated workload; re-run ./check C12 --tier quick to look for it again')
+        return run(prop, 'quick', w.get('seed', 1))
+    t = trial_from_text(meta, w['trial'] if isinstance(w['trial'], str) else '\n'.join(w['trial']))
+    logdir = tempfile.mkdtemp(prefix='tsanlog-', dir=os.path.join(VERIF, 'out'))
+    bad = []
+    try:
+        rng = random.Random(1)
+        text = ''.join(trial_text(i, t, rng=rng) for i in range(reps))
+        rc, so, se, to = run_thr(exe, text, logdir, 600)
+        if to or rc != 0:
+            bad.append('hang or crash (rc=%s timeout=%s): %s' % (rc, to, se[-1000:]))
+        parsed, _ = parse_trials(so)
+        for i in range(reps):
+            if i in parsed and parsed[i]['done']:
+                for a, d in conservation(meta, t, parsed[i]):
+                    bad.append('conservation %s: %s' % (a, d))
+                r = lin.check(meta, t, parsed[i])
+                if r['verdict'] == 'violation':
+                    bad.append('linearizability: ' + r['detail'])
+        for kind, key, txt in tsan_reports(logdir):
+            bad.append('tsan %s' % key)
+    finally:
+        shutil.rmtree(logdir, ignore_errors=True)
+    if bad:
+        for b in sorted(set(bad))[:8]:
+            print('  ' + b[:400])
+        print('VIOLATION property=%s replay=%s' % (prop, path))
+        return 1
+    print('replay: %d repetitions of the trial, no violation of %s on the current tree' % (reps, prop))
+    return 0
